@@ -11,7 +11,7 @@ git -C /repo worktree remove --force "$W" >/dev/null 2>&1
 git -C /repo worktree add --detach "$W" HEAD >/dev/null 2>&1 || { echo "worktree failed"; exit 2; }
 if ! git -C "$W" apply "$D/patch.diff"; then echo "RESULT $ID $P patch-does-not-apply"; git -C /repo worktree remove --force "$W"; exit 2; fi
 OUT=$(/verif/tools/altcheck.sh "$W" "$P" "$T" 2>&1); RC=$?
-echo "$OUT" | grep -E "VIOLATION|KNOWN-FINDING|done:" | head -8
+echo "$OUT" | grep -E "VIOLATION|KNOWN-FINDING|done:|Traceback|Error|error" | head -12
 echo "RESULT $ID $P rc=$RC $(echo "$OUT" | grep -c '^VIOLATION') violation-lines"
 N=$(echo "$W" | tr '/' '_')
 rm -rf "/verif/.cache/alt/$N"
